@@ -5,5 +5,5 @@ import "testing"
 // StoreSpec is the world of the store engines (E3/E4); defined in store_*.go.
 type StoreSpec struct{}
 
-func storeWorker(t *testing.T, job *Job) { t.Fatalf("store engine not built yet") }
+func storeWorker(t *testing.T, job *Job)    { t.Fatalf("store engine not built yet") }
 func storeReplay(t *testing.T, rep *Replay) { t.Fatalf("store engine not built yet") }
